@@ -14,8 +14,22 @@ def pick_pool(rnd):
     """Mostly the usual rank names; sometimes names that collide with tensor
     names, end in I, or have two letters (never a two-letter name together
     with its letters: level/flatten names would be ambiguous)."""
-    if rnd.random() < 0.75:
+    x = rnd.random()
+    if x < 0.70:
         return RANKS
+    if x < 0.76:
+        # a rank whose name is the concatenation of two others: [A, B, AB] and [AB, A, B]
+        # spell the same variable-name suffix (legal as long as nothing is flattened)
+        a, b = rnd.sample(["M", "N", "K", "J", "H", "W"], 2)
+        pool = [a, b, a + b] + rnd.sample([r for r in RANKS if r not in (a, b)], 1)
+        rnd.shuffle(pool)
+        return pool
+    if x < 0.82:
+        # a rank whose name is a prefix of another's
+        a = rnd.choice(["M", "N", "K"])
+        pool = [a, a + rnd.choice("HWX")] + rnd.sample([r for r in RANKS if r != a], 2)
+        rnd.shuffle(pool)
+        return pool
     pool = rnd.sample(ALT_RANKS, 4) + rnd.sample(RANKS, 1)
     if rnd.random() < 0.4:
         two = rnd.choice(["HI", "NI", "WI"])
